@@ -563,7 +563,13 @@ DTS = [
 NAMES = ['a', 'b', 'c', 'id', 'dis', 'val', 'siteRef', 'curVal', 'x1', 'a_b', 'tz', 'unit', 'navName',
          'zzz', 'point', 'his', 'kind', 'n', 'm', 't', 'f', 'na', 'r', 'e5', 'inf', 'nan', 'camelCaseTag',
          'z9_', 'col0', 'col1', 'col2', 'col3', 'mod', 'ts', 'v0', 'v1', 'v2', 'equip', 'site', 'geoCoord']
-RESERVED_NAMES = ('ver', 'name')
+# names that are structural somewhere in one of the two formats; they are ordinary tag names everywhere else
+STRUCTURAL_NAMES = ['ver', 'name', 'meta', 'cols', 'rows']
+# the only places where a format cannot carry them: a grid-level tag 'ver' (JSON: the version key; ZINC: the version
+# token) and a column-level tag 'name' (JSON: the column's name key); and a dict with all of meta/cols/rows *is* the
+# JSON spelling of a grid
+FORBID_GRID_META = ('ver',)
+FORBID_COL_META = ('name',)
 
 
 def catalogue(which='full'):
@@ -661,17 +667,19 @@ class Gen(object):
 
     def ident(self):
         r = self.r
+        if r.random() < 0.12:
+            return r.choice(STRUCTURAL_NAMES)
         if r.random() < 0.7:
             return r.choice(NAMES)
         n = r.randint(1, 8)
         return r.choice(_ALPHA) + ''.join(
             r.choice(_ALPHA + 'ABCXYZ0123456789_') for _ in range(n - 1))
 
-    def names(self, n):
+    def names(self, n, forbid=(), taken=()):
         out = []
         while len(out) < n:
             x = self.ident()
-            if x not in out and x not in RESERVED_NAMES:
+            if x not in out and x not in forbid and x not in taken:
                 out.append(x)
         return out
 
@@ -852,9 +860,12 @@ class Gen(object):
         if k == 'dict':
             n = r.choice([0, 1, 1, 2, 3])
             keys = self.names(n)
+            if {'meta', 'cols', 'rows'} <= set(keys):
+                keys.remove('rows')          # that key set is how JSON spells a nested grid
             return ('dict', tuple((kk, self.value(True, depth + 1)) for kk in keys))
         if k == 'grid':
-            return self.grid('3.0', depth + 1, small=True)
+            # a nested grid has a version of its own: that of the document, a lower one, or left to the Grid to detect
+            return self.grid(r.choice(['3.0', '3.0', '2.0', None]), depth + 1, small=True)
         return self.scalar(k)
 
     def grid(self, ver, depth=0, small=False, maxcols=5, maxrows=8):
@@ -864,13 +875,12 @@ class Gen(object):
         ncols = r.randint(1, 2 if small else maxcols)
         nrows = r.randint(0, 2 if small else maxrows)
         nmeta = r.choice([0, 0, 1, 2, 3]) if not small else r.choice([0, 1])
-        allnames = self.names(ncols + nmeta)
-        cols = allnames[:ncols]
-        meta = tuple((k, self.value(v3, depth)) for k in allnames[ncols:])
+        cols = self.names(ncols)
+        meta = tuple((k, self.value(v3, depth)) for k in self.names(nmeta, FORBID_GRID_META))
         colsm = []
         for c in cols:
             nm = r.choice([0, 0, 0, 1, 2]) if not small else r.choice([0, 0, 1])
-            ks = self.names(nm)
+            ks = self.names(nm, FORBID_COL_META)
             colsm.append((c, tuple((k, self.value(v3, depth)) for k in ks)))
         rows = []
         for _ in range(nrows):
